@@ -820,6 +820,58 @@ async fn master_requests(a: &ShardArgs, idx: u64) {
     }
 }
 
+/// every time an event object of a response carries (absolute, or relative to its common-time object) must be a time
+/// that was written for that point: what is encoded is what the database holds
+fn time_provenance(
+    a: &ShardArgs,
+    idx: u64,
+    frags: &[Vec<u8>],
+    written: &std::collections::BTreeMap<(usize, u32), std::collections::BTreeSet<u64>>,
+    ctx: &Vec<String>,
+) {
+    for f in frags {
+        if f.len() < 4 {
+            continue;
+        }
+        let Ok((meas, _)) = ra::decode_response_measurements(&f[4..]) else {
+            continue;
+        };
+        for m in meas.iter().filter(|m| m.is_event) {
+            let Some(t) = vals::EVENT_GROUP.iter().position(|g| *g == m.group) else {
+                continue;
+            };
+            let Some(time) = m.time else { continue };
+            out::eval(1);
+            let known = written.get(&(t, m.index)).map(|s| s.contains(&time)).unwrap_or(false);
+            if !known {
+                report(
+                    a,
+                    "A2",
+                    idx,
+                    &(
+                        "event_time_never_written".into(),
+                        format!("g{}v{}", m.group, m.var),
+                        format!(
+                            "event object g{}v{} index {} carries time {time}, which was never written for that point (written: {:?})",
+                            m.group,
+                            m.var,
+                            m.index,
+                            written.get(&(t, m.index)).map(|s| s.iter().rev().take(6).collect::<Vec<_>>())
+                        ),
+                    ),
+                    f,
+                    ctx,
+                );
+            } else {
+                out::count("A2_event_times_as_written", 1);
+                if m.rel_time.is_some() {
+                    out::count("A2_relative_event_times_as_written", 1);
+                }
+            }
+        }
+    }
+}
+
 /// Part A2: everything the real outstation encodes
 async fn outstation_responses(a: &ShardArgs, idx: u64) {
     let mut r = a.rng(&format!("c09/o/{idx}"));
@@ -879,19 +931,35 @@ async fn outstation_responses(a: &ShardArgs, idx: u64) {
     .await;
     let mut ctx: Vec<String> = vec![format!("tx={} layout={layout:?}", oc.sol_tx)];
     let mut seq = r.below(16) as u8;
+    let mut written: std::collections::BTreeMap<(usize, u32), std::collections::BTreeSet<u64>> = Default::default();
+    // event times mostly move along a line, forwards and backwards by steps around the reach of a 16-bit relative time
+    let mut t_line: u64 = 1_600_000_000_000 + r.below(1_000_000);
+    let mut next_time = move |r: &mut Rng| -> u64 {
+        if r.chance(1, 6) {
+            r.u64() & 0x0000_FFFF_FFFF_FFFF
+        } else {
+            let d: i64 = *r.pick(&[0i64, 1, 2, 999, 65_534, 65_535, 65_536, 70_000, -1, -2, -100, -65_535, -70_000]);
+            t_line = (t_line as i64 + d).max(0) as u64;
+            t_line
+        }
+    };
     // every point gets a value; most of them plainly ONLINE so that the packed variations are used
     for (t, i, _, _, _) in &layout {
         let mut s0 = vals::random_src(&mut r, *t, *i);
         if r.chance(3, 4) {
             s0.flags = 0x01;
         }
+        s0.time = next_time(&mut r);
+        written.entry((*t, *i as u32)).or_default().insert(s0.time);
         vals::update(&sim, &s0);
     }
     if burst {
         // more than 255 events of one type in one response: 16-bit counts and prefixes
         let (t, i, _, _, _) = *r.pick(&layout);
         for _ in 0..r.range(200, 300) {
-            let s0 = vals::random_src(&mut r, t, i);
+            let mut s0 = vals::random_src(&mut r, t, i);
+            s0.time = next_time(&mut r);
+            written.entry((t, i as u32)).or_default().insert(s0.time);
             vals::update(&sim, &s0);
         }
     }
@@ -917,12 +985,15 @@ async fn outstation_responses(a: &ShardArgs, idx: u64) {
         // new values
         for _ in 0..r.range(1, 12) {
             let (t, i, _, _, _) = *r.pick(&layout);
-            let s = vals::random_src(&mut r, t, i);
+            let mut s = vals::random_src(&mut r, t, i);
+            s.time = next_time(&mut r);
+            written.entry((t, i as u32)).or_default().insert(s.time);
             vals::update(&sim, &s);
         }
         settle().await;
         let rx = sim.collect();
         let unsol = check(a, &mut r, &ctx, &rx);
+        time_provenance(a, idx, &unsol, &written, &ctx);
         for f in unsol {
             if f[1] == ra::F_UNSOL_RESPONSE && f[0] & ra::CON != 0 {
                 sim.send(&ra::B::confirm(f[0] & 15, true).done());
@@ -976,6 +1047,7 @@ async fn outstation_responses(a: &ShardArgs, idx: u64) {
         for _ in 0..40 {
             let rx = sim.collect();
             let frags = check(a, &mut r, &ctx, &rx);
+            time_provenance(a, idx, &frags, &written, &ctx);
             let mut progressed = false;
             for f in frags {
                 if f[0] & ra::CON != 0 {
